@@ -47,6 +47,27 @@ func (vc *VC) emit(o *Obl, dir string, idx int) (string, int, error) {
 	need := map[string]bool{}
 	symbols(o.PC, need)
 	symbols(o.Goal, need)
+	// pathSyms: symbols on the execution path of the obligation (through definitions only, not through side facts)
+	pathSyms := map[string]bool{}
+	symbols(o.PC, pathSyms)
+	symbols(o.Goal, pathSyms)
+	{
+		di := map[string]int{}
+		for i, d := range vc.defs {
+			di[d.Name] = i
+		}
+		done := map[int]bool{}
+		for ch := true; ch; {
+			ch = false
+			for sym := range pathSyms {
+				if i, ok := di[sym]; ok && !done[i] {
+					done[i] = true
+					symbols(vc.defs[i].Term, pathSyms)
+					ch = true
+				}
+			}
+		}
+	}
 	defIdx := map[string]int{}
 	for i, d := range vc.defs {
 		defIdx[d.Name] = i
@@ -185,7 +206,7 @@ func (vc *VC) emit(o *Obl, dir string, idx int) (string, int, error) {
 		ctx0 := b.String()
 		hasCand := len(sks) > 0
 		for _, sr := range vc.searchRes {
-			if strings.Contains(ctx0, sr) || strings.Contains(goal, sr) {
+			if pathSyms[sr] {
 				hasCand = true
 			}
 		}
@@ -200,7 +221,7 @@ func (vc *VC) emit(o *Obl, dir string, idx int) (string, int, error) {
 			}
 			for _, sk := range sks {
 				terms = append(terms, sk)
-				if nq <= 6 {
+				if nq <= 3 {
 					terms = append(terms, "(- "+sk+" 1)", "(+ "+sk+" 1)")
 				}
 				// images under the permutations introduced by sort models
@@ -235,7 +256,7 @@ func (vc *VC) emit(o *Obl, dir string, idx int) (string, int, error) {
 			}
 			// further candidate terms: results of binary searches and their predecessors
 			for _, sr := range vc.searchRes {
-				if strings.Contains(ctx, sr) || strings.Contains(goal, sr) {
+				if pathSyms[sr] {
 					terms = append(terms, sr)
 					if nq <= 6 {
 						terms = append(terms, "(- "+sr+" 1)")
@@ -255,6 +276,31 @@ func (vc *VC) emit(o *Obl, dir string, idx int) (string, int, error) {
 				it := work[0]
 				work = work[1:]
 				vars := it.q.vars()
+				cand := terms
+				if len(vars) == 1 {
+					// single-variable quantifiers are also tried at the integer locals in scope (loop counters, range indices)
+					for _, c := range o.Cands {
+						ok := true
+						m := map[string]bool{}
+						symbols(c, m)
+						for sy := range m {
+							if !builtinSym(sy) && !pathSyms[sy] {
+								ok = false
+							}
+						}
+						if ok && len(cand) < 16 {
+							dup := false
+							for _, t := range cand {
+								if t == c {
+									dup = true
+								}
+							}
+							if !dup {
+								cand = append(append([]string{}, cand...), c)
+							}
+						}
+					}
+				}
 				// all tuples of candidate terms for the bound variables
 				var tuples [][]string
 				var rec func(k int, cur []string)
@@ -266,7 +312,7 @@ func (vc *VC) emit(o *Obl, dir string, idx int) (string, int, error) {
 						tuples = append(tuples, append([]string(nil), cur...))
 						return
 					}
-					for _, t := range terms {
+					for _, t := range cand {
 						rec(k+1, append(cur, t))
 					}
 				}
@@ -281,14 +327,23 @@ func (vc *VC) emit(o *Obl, dir string, idx int) (string, int, error) {
 						continue
 					}
 					seen[key] = true
-					qn, ok := qnames[it.q.Text]
-					if !ok {
-						qn = fmt.Sprintf("Q!%d", len(qnames))
-						qnames[it.q.Text] = qn
-						fmt.Fprintf(&b, "(declare-const %s Bool)\n(assert (=> %s %s))\n", qn, it.q.Text, qn)
+					if len(it.q.Text) < 3000 {
+						// small quantifier: the instance is stated directly under it (faster for the solvers than an indirection)
+						fmt.Fprintf(&b, "(assert (=> %s %s))\n", it.q.Text, inst)
+						n++
+						goto nested
 					}
-					fmt.Fprintf(&b, "(assert (=> %s %s))\n", qn, inst)
-					n++
+					{
+						qn, ok := qnames[it.q.Text]
+						if !ok {
+							qn = fmt.Sprintf("Q!%d", len(qnames))
+							qnames[it.q.Text] = qn
+							fmt.Fprintf(&b, "(declare-const %s Bool)\n(assert (=> %s %s))\n", qn, it.q.Text, qn)
+						}
+						fmt.Fprintf(&b, "(assert (=> %s %s))\n", qn, inst)
+						n++
+					}
+				nested:
 					if it.depth >= 1 || len(vars) > 1 {
 						continue
 					}
@@ -304,11 +359,14 @@ func (vc *VC) emit(o *Obl, dir string, idx int) (string, int, error) {
 		fmt.Fprintf(&b, "(assert (not %s))\n", goal)
 	}
 	b.WriteString("(check-sat)\n")
+	// symbols proved equal to an earlier symbol (cells and heap arrays a loop leaves alone) are replaced by it throughout:
+	// the solver then needs no equational reasoning over array-sorted constants to see through unchanged state
+	text := vc.substAliases(b.String())
 	path := filepath.Join(dir, fmt.Sprintf("%03d_%s.smt2", idx, sanitize(o.Name)))
-	if err := os.WriteFile(path, b.Bytes(), 0o644); err != nil {
+	if err := os.WriteFile(path, []byte(text), 0o644); err != nil {
 		return "", 0, err
 	}
-	return path, b.Len(), nil
+	return path, len(text), nil
 }
 
 func builtinSym(s string) bool {
@@ -538,4 +596,39 @@ func groundApps(text, f string) []string {
 		i = st + len(pat)
 	}
 	return out
+}
+
+// substAliases rewrites every aliased symbol to its root, except in declarations.
+func (vc *VC) substAliases(text string) string {
+	if len(vc.alias) == 0 {
+		return text
+	}
+	var out strings.Builder
+	for _, line := range strings.SplitAfter(text, "\n") {
+		if strings.HasPrefix(line, "(declare-") {
+			out.WriteString(line)
+			continue
+		}
+		i := 0
+		n := len(line)
+		for i < n {
+			c := line[i]
+			if c == '(' || c == ')' || c == ' ' || c == '\n' || c == '\t' {
+				out.WriteByte(c)
+				i++
+				continue
+			}
+			j := i
+			for j < n && line[j] != '(' && line[j] != ')' && line[j] != ' ' && line[j] != '\n' && line[j] != '\t' {
+				j++
+			}
+			tok := line[i:j]
+			if _, ok := vc.alias[tok]; ok {
+				tok = vc.resolve(tok)
+			}
+			out.WriteString(tok)
+			i = j
+		}
+	}
+	return out.String()
 }
